@@ -7,35 +7,42 @@
 (* own keys - any sequence up to MaxSteps.  Invariant: whenever the        *)
 (* implementation-shaped verifier accepts, the structure is authentic      *)
 (* under the contained identity's key.  With ChecksAuth = FALSE (the tree  *)
-(* before the repair) TLC finds the forged-offline attack.                 *)
+(* before the repair) TLC finds the forged-offline attack.  Leaked = TRUE  *)
+(* hands the adversary the owner's TRANSIENT key (the case offline keys    *)
+(* exist for): it may then sign content, but only under the block the      *)
+(* identity authorised - a verifier that forgets the expiry (Flaw =        *)
+(* "cache-no-expiry") is refuted.  Flaw = "accepts-revkey": a legacy       *)
+(* LeaseSet verified under its own signing_key field is refuted too.       *)
 (***************************************************************************)
 EXTENDS Crypto
-CONSTANTS ChecksAuth, MaxSteps
+CONSTANTS ChecksAuth, MaxSteps, Flaw, Leaked
 OwnerKeys == {"idA", "tA"}          \* identity and transient key of the owner
-AdvKeys == {"idE", "tE"}            \* adversary's identity and transient key
+AdvKeys == {"idE", "tE"} \cup (IF Leaked THEN {"tA"} ELSE {})           \* adversary's identity and transient key (and a leaked transient key)
 Contents == {"c0", "c1"}
 VARIABLES s, steps
 vars == << s, steps >>
 Publish(kind, off) ==
-  LET o == IF off THEN [present |-> TRUE, tkey |-> "tA", auth |-> Sig("idA", AuthMsg("tA"))] ELSE None
+  LET o == IF off THEN [present |-> TRUE, tkey |-> "tA", expires |-> "e0", auth |-> Sig("idA", AuthMsg("tA", "e0"))] ELSE None
       signer == IF off THEN "tA" ELSE "idA" IN
-  [kind |-> kind, idkey |-> "idA", content |-> "c0", offline |-> o, sig |-> Sig(signer, Msg(kind, "idA", "c0", o))]
+  [kind |-> kind, idkey |-> "idA", revkey |-> "idA", content |-> "c0", offline |-> o, sig |-> Sig(signer, Msg(kind, "idA", "idA", "c0", o))]
 Init == /\ \E kind \in Kinds, off \in BOOLEAN : (off => HasOfflineOption(kind)) /\ s = Publish(kind, off)
         /\ steps = 0
 \* signatures the adversary can produce: only with its own keys (over anything), or replay ones it has seen
 AdvSig(m) == { Sig(k, m) : k \in AdvKeys }
 Seen == { s.sig } \cup (IF ~s.offline.present THEN {} ELSE { s.offline.auth })
-         \cup { Sig("idA", AuthMsg("tA")) }          \* an authentic authorisation published elsewhere
-AdvOffline == { [present |-> TRUE, tkey |-> t, auth |-> a] : t \in {"tA", "tE"}, a \in Seen \cup AdvSig(AuthMsg("tE")) \cup AdvSig(AuthMsg("tA")) \cup { << "junk" >> } }
+         \cup { Sig("idA", AuthMsg("tA", "e0")) }          \* an authentic authorisation published elsewhere
+AdvOffline == UNION { { [present |-> TRUE, tkey |-> t, expires |-> e, auth |-> a] : t \in {"tA", "tE"},
+                          a \in Seen \cup AdvSig(AuthMsg("tE", e)) \cup AdvSig(AuthMsg("tA", e)) \cup { << "junk" >> } } : e \in Expiries }
 Edit == \E c \in Contents : s' = [s EXCEPT !.content = c]
-ReplaceSig == \E x \in AdvSig(Msg(s.kind, s.idkey, s.content, s.offline)) \cup Seen \cup { << "junk" >> } : s' = [s EXCEPT !.sig = x]
+ReplaceSig == \E x \in AdvSig(Msg(s.kind, s.idkey, s.revkey, s.content, s.offline)) \cup Seen \cup { << "junk" >> } : s' = [s EXCEPT !.sig = x]
 SwapKey == \E k \in {"idA", "idE"} : s' = [s EXCEPT !.idkey = k]
+SetRevKey == \E k \in {"idA", "idE"} : s' = [s EXCEPT !.revkey = k]
 SetOffline == HasOfflineOption(s.kind) /\ \E o \in AdvOffline \cup { None } : s' = [s EXCEPT !.offline = o]
-Next == steps < MaxSteps /\ steps' = steps + 1 /\ (Edit \/ ReplaceSig \/ SwapKey \/ SetOffline)
+Next == steps < MaxSteps /\ steps' = steps + 1 /\ (Edit \/ ReplaceSig \/ SwapKey \/ SetRevKey \/ SetOffline)
 \* authenticity is relative to the identity the structure claims; a structure wholly re-made by the adversary
 \* under its OWN identity key is authentic for that identity and not an attack
-VerifyImpliesAuthentic == ImplVerify(s, ChecksAuth) => Authentic(s)
+VerifyImpliesAuthentic == ImplVerify(s, ChecksAuth, Flaw) => Authentic(s)
 \* C06 at design level: what the owner publishes is authentic and is accepted (checked in the initial states and whenever untouched)
-PublishedIsAccepted == steps = 0 => (Authentic(s) /\ ImplVerify(s, ChecksAuth))
-OwnerNeverImpersonated == (ImplVerify(s, ChecksAuth) /\ s.idkey = "idA") => (Authentic(s) /\ (s.offline.present => s.offline.tkey = "tA") /\ s.content = "c0")
+PublishedIsAccepted == steps = 0 => (Authentic(s) /\ ImplVerify(s, ChecksAuth, Flaw))
+OwnerNeverImpersonated == (ImplVerify(s, ChecksAuth, Flaw) /\ s.idkey = "idA") => (Authentic(s) /\ (s.offline.present => s.offline.tkey = "tA") /\ s.content = "c0")
 =============================================================================
